@@ -4,7 +4,7 @@
 From Coq Require Import ZArith List Bool.
 Require Import CGT.Model.Date CGT.Model.Mcp CGT.Proofs.McpFacts.
 Require CGT.Model.Dsl.
-Require Import CGT.Model.McpTools CGT.Proofs.McpToolsFacts.
+Require Import CGT.Model.McpTools CGT.Proofs.McpToolsFacts CGT.Proofs.McpEndToEnd.
 From Coq Require Import String.
 Require Import CGT.Model.Agg CGT.Model.Report CGT.Model.Config CGT.Proofs.DateFacts CGT.Proofs.SliceFacts CGT.Proofs.McpExplain.
 Import ListNotations.
@@ -106,3 +106,18 @@ Example C20_tools_apply :
   calculate_tool pd pj (fun n => Nat.eqb n 0) calc (Dsl.T "  ") None = TErr /\
   explain_tool pd pj (fun n => Nat.eqb n 0) calc disp fst snd (Dsl.T "x") (Dsl.T "2024-06-01") (Dsl.T "BP") = TErr.
 Proof. cbv zeta. repeat split; vm_compute; reflexivity. Qed.
+
+(* The two layers together: the tool layer over the report model.  For ANY readers: if the transactions argument is read as the ledger l, every
+   disposal x that the all-years report of l lists is explained when explain_matching is asked with x's date (YYYY-MM-DD) and x's ticker in any letter
+   case - provided the report of the derived tax year can be computed at all (its exemption is configured), which is the property's own premise that
+   calculate_report lists the disposal. *)
+Theorem C20_explain_end_to_end : forall cfg (parse_dsl parse_json : Dsl.text -> option (list Ledger.gtxn)) s ds tk l r_all ys x r_y,
+  parse_input parse_dsl parse_json s = TOk l -> no_txns l = false ->
+  dated_in_sweep (sort_disposals (sec_disposals P0 (eval_all P0 l))) ->
+  report_of P0 cfg None l = inr r_all -> In ys (r_years r_all) -> In x (y_disposals ys) ->
+  report_of P0 cfg (Some (explain_year (disp_date x))) l = inr r_y ->
+  read_iso_date ds = TOk (disp_date x) -> Dsl.upper_text (disp_tick x) = Dsl.upper_text tk ->
+  exists x', explain_tool parse_dsl parse_json no_txns (calc_model cfg) listed disp_date disp_tick s ds tk = TOk x' /\
+             disp_date x' = disp_date x /\ tick_eq_ci (disp_tick x') tk = true.
+Proof. exact explain_end_to_end. Qed.
+Print Assumptions C20_explain_end_to_end.
